@@ -347,6 +347,15 @@ def run(ctx):
         chains = [T.detuple(ctx.replay_case["chain"])]
     else:
         chains = exhaustive_chains(thorough)
+        # view selections that repeat one index and skip another, on axes of length 3 and 4
+        b32 = ("from", [Fraction(0), Fraction(2), Fraction(5)], [Fraction(0), Fraction(3)])
+        b43 = ("from", [Fraction(0), Fraction(1), Fraction(3), Fraction(6)], [Fraction(0), Fraction(2), Fraction(5)])
+        for base, vacs, sels in ((b32, [[(1, 0)], [(0, 0), (2, 1)], [(0, 1)]], [([0, 0, 2], [0, 1]), ([0, 2, 2], [0, 1]), ([2, 0, 0], [1, 0])]),
+                                 (b43, [[(1, 1)], [(2, 0), (3, 2)], [(0, 0), (1, 2)]], [([1, 1, 3], [0, 1, 2]), ([0, 0, 2], [0, 0, 2]), ([0, 1, 3, 3], [1, 1])])):
+            for vac in vacs:
+                for xi, yi in sels:
+                    chains.append(("sub", ("vacate", base, vac), xi, yi))
+                    chains.append(("sub", ("fill", base, vac), xi, yi))
         ctx.count("exhaustive_chains", len(chains))
         chains += [rand_chain(ctx.rng) for _ in range(6000 if thorough else 600)]
         ctx.exhaustive = True
